@@ -40,7 +40,7 @@ def factory_facts(prog: Program, direction: str):
             node = ("elem", nodes)
             stored = {}
             for e in p.events:
-                if e[0] == "setitem" and e[4] == "context":
+                if e[0] == "setitem" and T.is_call_to(e[1], "typelib.ctx.TypeContext"):
                     k, v = e[2], e[3]
                     if k[0] == "attr" and k[1] == node and k[2] in ("type", "unwrapped"):
                         facts["keys"].add(k[2])
